@@ -1,10 +1,12 @@
 import A2lVerif.Driver.ItemList
+import A2lVerif.Driver.Limits
 /-! `a2lmodel`: one request per line on stdin, one canonical answer per line on stdout. -/
 open A2l
 
 def dispatch (line : String) : String :=
   match (line.trimAscii.toString.splitOn " ").filter (· ≠ "") with
   | "il" :: args => IL.handle args
+  | "lim" :: args => Lim.handle args
   | _ => "bad-request"
 
 partial def loop (h : IO.FS.Stream) (out : IO.FS.Stream) : IO Unit := do
